@@ -23,7 +23,7 @@ ASSUMPTIONS = [
 ]
 MANIFEST = {'text': 'proof (dominators, must-pass-through, provenance) of: no-overwrite and confinement of auto-save, Complete only from the size/sequence-checked sites, payload appended only for the expected package '
                     'with paired counters, only Complete transfers reach the save table.'
-                    ' Added: Complete on the data path requires size equality on every path; whenever the received-payload counter advances the package is appended (unless nothing is kept).'}
+                    ' Added: Complete on the data path requires size equality on every path; whenever the received-payload counter advances the package is appended (unless nothing is kept). Added: the index announced in tree items and the keys of the save table are positions in self.transfers (enumerate directly over it).'}
 
 MOD = 'adlt::plugins::file_transfer::'
 CREATE = re.compile(r'^(std::fs::File::create|std::fs::File::create_new|std::fs::OpenOptions::open|std::fs::write|std::fs::File::options|std::fs::rename|std::fs::copy|std::fs::remove_file)$')
@@ -41,6 +41,8 @@ def run(F, chk):
     check_routing(F, [b for b in bodies if '::tests::' not in b.path], V6)
     V7 = chk.rule('V7', 'the transfer index announced in tree items (cmdCtx.save.idx) and the keys of the save table are positions in self.transfers: enumerate() directly over self.transfers')
     check_index_space(F, V7)
+    V8 = chk.rule('V8', 'the received-payload counter is reset only together with the data buffer (a restart that keeps old bytes would be reported complete with a stale prefix)')
+    check_counter_reset_with_data(F, [b for b in bodies if '::tests::' not in b.path], V8)
     creates = []
     for b in bodies:
         for blk in b.calls():
@@ -164,6 +166,17 @@ def check_complete(F, bodies, V3):
                     cfg = cfg or CFG(b)
                     E = ExprBuilder(cfg)
                     conds = [show(c) for (c, t, D) in guards.known(cfg, E, blk.i) if t in (True, False)]
+                    # `let got_all = next > nr; let size_ok = size == 0 || size == recvd; if got_all && size_ok`: a named bool that holds
+                    # stands for the comparison(s) it was computed from
+                    for (c, t, D) in guards.known(cfg, E, blk.i):
+                        if t is True and isinstance(c, tuple) and c[0] == 'place' and len(c) == 2:
+                            for l_ in b.locals_named(c[1]):
+                                if b.lty(l_) != 'bool':
+                                    continue
+                                for (bi_, si_, d_) in cfg.defs.get(l_, []):
+                                    if si_ != 'call':
+                                        conds.append(show(E.rvalue(d_.rv)))
+                                        conds += [show(c2) for (c2, t2, D2) in guards.known(cfg, E, bi_) if t2 is True and D2 != D]
                     joined = ' ; '.join(conds)
                     ok = ('recvd_packages' in joined and 'next_package' in joined) or ('next_package' in joined and 'nr_packages' in joined and ('recvd_payload' in joined or 'file_size' in joined)) or \
                          ('next_package' in joined and 'nr_packages' in joined)
@@ -191,16 +204,36 @@ def check_complete(F, bodies, V3):
                 return 'unknown'
             return None
 
+        def named_bool_is_size_test(c):
+            """the switch is on a named bool every definition of which is the size comparison itself, `false`, or `true` behind the
+            true edge of a size comparison (`let size_ok = size == 0 || size as usize == recvd;`)"""
+            if not (isinstance(c, tuple) and c[0] == 'place' and len(c) == 2):
+                return False
+            ls_ = [l_ for l_ in b.locals_named(c[1]) if b.lty(l_) == 'bool']
+            if len(ls_) != 1 or not cfg.defs.get(ls_[0]):
+                return False
+            for (bi_, si_, d_) in cfg.defs[ls_[0]]:
+                if si_ == 'call':
+                    return False
+                v = E.rvalue(d_.rv)
+                if eq_kind(v) or v == ('const', 0):
+                    continue
+                if v == ('const', 1) and any(t2 is True and eq_kind(c2) for (c2, t2, D2) in guards.known(cfg, E, bi_)):
+                    continue
+                return False
+            return True
+
         def edge_effect(blk, tgt, facts):
             if blk.term.k == 'switch' and ('sizeok',) not in facts:
-                k = eq_kind(E.switch_cond(blk))
+                k = eq_kind(E.switch_cond(blk)) or named_bool_is_size_test(E.switch_cond(blk))
                 if k:
                     vals = blk.term.d['vals']
                     true_edge = (blk.term.d['otherwise'] == tgt and [v for v, _ in vals] == [0]) or any(t == tgt and v != 0 for v, t in vals)
                     if true_edge:
                         return frozenset(facts | {('sizeok',)})
             return facts
-        ex = Explorer(cfg, edge_effect=edge_effect, var_roots=set())
+        from paths import partial_flags
+        ex = Explorer(cfg, edge_effect=edge_effect, var_roots=set(), extra_flags=partial_flags(cfg))
         ex.run()
         found = 0
         for blk in b.blocks:
@@ -548,3 +581,76 @@ def check_index_space(F, V7):
                     V7.violation(('index-space', x.closure_of or x.path, 'renderer-index'), 'the tree item renderer is called at %s with index %s, which is not the position of the transfer in self.transfers: '
                                  'the announced cmdCtx.save.idx denotes another transfer in the save table' % (x.loc(t.sp), show(idx)[:70] if idx is not None else '?'), where=x.loc(t.sp))
     V7.floor('calls of the tree item renderer', n_calls, 1)
+
+
+# ---------------------------------------------------------------------------------------------
+# V8: counters and data are reset together
+
+FT = 'adlt::plugins::file_transfer::FileTransfer'
+
+
+def check_counter_reset_with_data(F, bodies, V8):
+    """`recvd_payload` counts the bytes in `file_data`; Complete is declared when it equals the announced size and the bytes saved
+    are `file_data`.  Besides the construction of a transfer (counter 0, fresh buffer) and the paired `+= len` / append (V4),
+    any store to the counter (a reset when a transfer is restarted, ..) must come with a reset of the buffer on every path:
+    a fresh Vec stored into / `clear()` / `truncate(0)` called on the same transfer's file_data in a block that dominates the
+    store or lies on every path from it to the end of the function."""
+    n = 0
+    for b in bodies:
+        cfg = E = None
+        for blk in b.blocks:
+            if blk.cleanup:
+                continue
+            for s in blk.stmts:
+                if s.k != 'assign':
+                    continue
+                fl = [e for e in s.place.p if e['k'] == 'f']
+                if s.rv['k'] == 'agg' and s.rv.get('adt') == FT:
+                    n += 1
+                    V8.sites += 1
+                    V8.fn(b.path)
+                    cfg = cfg or CFG(b)
+                    E = E or ExprBuilder(cfg, fold_named=True)
+                    fields = s.rv.get('fields', [])
+                    cnt = E.operand(Operand(s.rv['ops'][fields.index('recvd_payload')])) if 'recvd_payload' in fields else None
+                    dat = show(E.operand(Operand(s.rv['ops'][fields.index('file_data')]))) if 'file_data' in fields else ''
+                    if cnt == ('const', 0) and re.match(r'Vec::(with_capacity|new)\(', dat):
+                        V8.ok(sample={'construction_at': b.loc(s.sp), 'recvd_payload': 0, 'file_data': dat[:50]})
+                    else:
+                        V8.violation(('construction-counter-data', b.path), 'a FileTransfer is constructed at %s with recvd_payload = %s and file_data = %s (expected 0 and a fresh Vec)' % (b.loc(s.sp), show(cnt) if cnt is not None else '?', dat[:50]), where=b.loc(s.sp))
+                    continue
+                if not (fl and fl[-1]['n'] == 'recvd_payload' and fl[-1].get('o') == FT and s.place.p[-1] is fl[-1]):
+                    continue
+                cfg = cfg or CFG(b)
+                E = E or ExprBuilder(cfg, fold_named=True)
+                tgt = E.target(s.place)
+                e = E.rvalue(s.rv)
+                if isinstance(e, tuple) and e[0] == 'bin' and e[1] == 'Add' and e[2] == tgt:
+                    continue          # the paired increment: rule V4
+                n += 1
+                V8.sites += 1
+                V8.fn(b.path)
+                owner = tgt[:-1]
+                resets = set()
+                for rb in b.blocks:
+                    if rb.cleanup:
+                        continue
+                    for s2 in rb.stmts:
+                        if s2.k == 'assign' and E.target(s2.place) == owner + ('.file_data',) and re.match(r'Vec::(with_capacity|new)\(', show(E.rvalue(s2.rv))):
+                            resets.add(rb.i)
+                    t2 = rb.term
+                    if t2.k == 'call' and re.search(r'Vec::<T, A>::(clear|truncate)$', t2.callee.path) and t2.args:
+                        a0 = E.operand(t2.args[0])
+                        while isinstance(a0, tuple) and a0[0] == 'ref':
+                            a0 = a0[1]
+                        if a0 == owner + ('.file_data',) and (t2.callee.path.endswith('clear') or E.operand(t2.args[1]) == ('const', 0)):
+                            resets.add(rb.i)
+                    if t2.k == 'call' and t2.dest is not None and E.target(t2.dest) == owner + ('.file_data',) and re.search(r'Vec::<T(, A)?>::(with_capacity|new)$', t2.callee.path):
+                        resets.add(rb.i)
+                ok = any(cfg.dominates(r, blk.i) for r in resets) or (bool(resets) and not any(x in cfg.reachable_from(blk.i, avoid=resets) for x in cfg.exits if x not in resets))
+                if ok:
+                    V8.ok(sample={'counter_reset_at': b.loc(s.sp), 'buffer_reset_on_every_path': True})
+                else:
+                    V8.violation(('counter-reset-keeps-data', b.closure_of or b.path), '%s sets %s = %s at %s but the buffer %s.file_data is not reset on every path with it: the bytes of the aborted attempt stay in front, '
+                                 'the counters match again after the re-sent packages and the transfer is reported Complete with a stale prefix' % (b.path, show(tgt), show(e)[:30], b.loc(s.sp), show(owner)), where=b.loc(s.sp))
+    V8.floor('constructions / non-incrementing stores of the received-payload counter', n, 1)
